@@ -9,7 +9,7 @@
    [read_obs ps r a] = what accessor [a] of node [r] returns in state [ps]. *)
 Require Import IP.Base.Bytes IP.DM.Value IP.Heap.GoMem IP.Heap.BasicHeap.
 Require Import IP.Heap.Script.
-Require Import IP.Proofs.HeapMem IP.Proofs.HeapLogic IP.Proofs.HeapOps IP.Proofs.HeapPrims IP.Proofs.HeapC11 IP.Proofs.HeapScript IP.Proofs.HeapReaders.
+Require Import IP.Proofs.HeapMem IP.Proofs.HeapLogic IP.Proofs.HeapOps IP.Proofs.HeapPrims IP.Proofs.HeapC11 IP.Proofs.HeapScript IP.Proofs.HeapReaders IP.Proofs.HeapEngine.
 From Coq Require Import List ZArith Bool.
 Import ListNotations.
 Local Open Scope nat_scope.
@@ -276,6 +276,37 @@ Example C11_repaired_stream_reads :
            (RStream (0, 2)) ABytes
     = RDone (PAcc (XBytes [97; 98; 99]%N None)).
 Proof. vm_compute. reflexivity. Qed.
+
+(* ---- other engines: what a model of bindnode / gendemo has to supply ---- *)
+
+(* The typed engines have no model; the check covers them at the oracle level only (docs/C11.md).
+   The history part of C11 does not depend on the engine: for ANY engine modelled over the Go heap
+   — states with a heap, calls, a Legal predicate, handles handed out, reads through handles — the
+   all-histories statement follows from two facts about single calls and single reads:
+   (E1) every Legal call preserves the ownership invariant, keeps handed-out handles referring to
+   frozen cells, and does not store to frozen cells; (E2) a read through a handed-out handle depends
+   on frozen cells only.  These are the obligations a bindnode model would have to discharge. *)
+Theorem C11_any_engine : forall (St Call Hd Obs : Type) (hp_of : St -> mheap) (stepE : St -> Call -> St)
+    (legalE : St -> Call -> bool) (knownE : St -> Hd -> Prop) (readE : mheap -> Hd -> Obs)
+    (okE : Hd -> tags -> mheap -> Prop) (KE : tags -> St -> Prop),
+  (forall tg s hd, KE tg s -> knownE s hd -> okE hd tg (hp_of s)) ->
+  (forall tg s c, Inv tg (hp_of s) -> KE tg s -> legalE s c = true ->
+     exists tg', Inv tg' (hp_of (stepE s c)) /\ KE tg' (stepE s c) /\ Ext tg (hp_of s) tg' (hp_of (stepE s c))) ->
+  (forall tg h tg' h' hd, Inv tg h -> Ext tg h tg' h' -> okE hd tg h -> readE h hd = readE h' hd) ->
+  forall tg0 s0, Inv tg0 (hp_of s0) -> KE tg0 s0 ->
+  forall cs1 cs2, legalhE St Call stepE legalE s0 (cs1 ++ cs2) = true ->
+  forall hd, knownE (runE St Call stepE s0 cs1) hd ->
+  readE (hp_of (runE St Call stepE s0 cs1)) hd = readE (hp_of (runE St Call stepE s0 (cs1 ++ cs2))) hd.
+Proof. exact engine_stable. Qed.
+Print Assumptions C11_any_engine.
+
+(* the hypotheses are satisfiable: basicnode is such an engine ((E1) = pstep_inv, (E2) = acc_stable),
+   and the instance is C11_stable / C11_stable_partial again *)
+Theorem C11_basicnode_is_an_engine : forall cf hs1 hs2, legalh cf pinit (hs1 ++ hs2) = true ->
+  forall r a, bknown cf (runh cf pinit hs1) (r, a) ->
+  bread cf (hp (runh cf pinit hs1)) (r, a) = bread cf (hp (runh cf pinit (hs1 ++ hs2))) (r, a).
+Proof. exact basic_engine_stable. Qed.
+Print Assumptions C11_basicnode_is_an_engine.
 
 (* ---- the hypotheses are satisfiable, and Legal excludes what it must ---- *)
 
